@@ -110,6 +110,19 @@ def concretise(v, f, wd):
     """argv (without the tool name) and the output format in force for a vector."""
     tool = v["tool"]
     default_fmt = "opb" if tool == "pbgen" else "dimacs"
+    if v["dev"] == "build_refusal":
+        sel = v["fmt"]
+        kind, _, what = sel.partition("_")
+        fmt = {"dimacs": "dimacs", "opb": "opb", "latex": "latex", "cnf": "dimacs", "tex": "latex"}.get(what, default_fmt)
+        if tool == "pbgen" and kind == "extension":
+            fmt = "opb"        # pbgen's format option defaults to opb: the file extension is not consulted
+        if kind == "option":
+            glob = ["--output-format", what]
+        elif kind == "extension":
+            glob = ["-o", os.path.join(wd, "refused_%s_%s.%s" % (tool, abs(hash(tuple(v["valid"]))) % 10 ** 6, what))]
+        else:
+            glob = []
+        return glob + list(v["valid"]), fmt
     fmt = default_fmt if v["fmt"] == "default" else v["fmt"]
     glob = [] if v["fmt"] == "default" or tool in ("cnfshuffle", "kthlist2pebbling") else ["--output-format", v["fmt"]]
     place = {"@gs": ["grid", "2", "2"], "@gseven": ["complete", "3"], "@gb": ["complete", "2", "3"],
